@@ -50,6 +50,18 @@ class C17(Check):
             for p in pats:
                 for r in reps:
                     yield "replace %s %s %s" % (hx(p), hx(r), hx(s)), "replace-exh"
+        # the subject string passed again as pattern and/or replacement (aliasing references)
+        for a in list(strings(A, 4 if tier == "quick" else 5)):
+            yield "replacea 3 %s -" % hx(a), "replace-alias"
+            for b in list(strings(A, 2)):
+                yield "replacea 1 %s %s" % (hx(a), hx(b)), "replace-alias"
+                yield "replacea 2 %s %s" % (hx(a), hx(b)), "replace-alias"
+        # single-pass iterators (std::istream_iterator) through the iterator overload of join
+        words = ["a", "b", "ab", "-", "a,b"]
+        for n in range(0, 4 if tier == "quick" else 5):
+            for l in itertools.product(words, repeat=n):
+                for i in ["", ",", " ", ", "]:
+                    yield "joinw %s %s" % (hx(i), wl(l)), "join-single-pass"
         sw = list(strings(A, 3 if tier == "quick" else 4))
         for f in sw:
             for p in sw:
@@ -118,7 +130,9 @@ class C17(Check):
             return w[1] != "-" and unhx(w[1]) in unhx(w[3])
         if w[0] == "starts":
             return w[2] != "-"
-        if w[0] in ("join", "joini"):
+        if w[0] == "replacea":
+            return w[2] != "-"
+        if w[0] in ("join", "joini", "joinw"):
             return "," in w[2]
         return False
 
@@ -129,9 +143,9 @@ class C17(Check):
     def shrink(self, case):
         w = case.split()
         # drop one byte from one of the hex fields / one list element
-        for k in range(1, len(w)):
+        for k in range(2 if w[0] == "replacea" else 1, len(w)):
             f = w[k]
-            if "," in f or (w[0] == "join" and k == 2):
+            if "," in f or (w[0] in ("join", "joinw") and k == 2):
                 el = f.split(",") if f != "." else []
                 for i in range(len(el)):
                     yield " ".join(w[:k] + [",".join(el[:i] + el[i+1:]) or "."] + w[k+1:])
